@@ -429,6 +429,10 @@ def run(pm, ctx):
     run_decisions(pm, ctx, 'C07-RD', OWN['C07'])
     from .. import exprdrift
     exprdrift.run(pm, ctx, 'C07-RE', OWN['C07'])
+    from ..conddrift import run_calls
+    run_calls(pm, ctx, 'C07-RC', OWN['C07'])
+    from .. import memo
+    memo.run(pm, ctx, 'C07-MK', OWN['C07'])
     # the strict unknown-field test compares with the declared names of *this* type
     from ..dataflow import defs as _defs
     dsf = pm.func(DEC + '.decode_struct')
